@@ -490,4 +490,411 @@ theorem bubble_isSome (l : List Model) (hnd : (l.map (·.path)).Nodup) (hac : Ac
     ⟨by simp, by simp [SortedBy], by simp⟩
   simpa using this
 
+
+/-! ### the ordering invariant of `sorted_data_models`
+
+The invariant has a clause about dependencies in general (needs only distinct paths) and a clause
+about base classes (needs in addition `WF` and the absence of self-bases). The parameter `B`
+switches the second clause on, so that one induction serves both theorems. -/
+
+/-- `reference_classes` contains the base-class paths (by its definition in model/base.py) -/
+def WF (m : Model) : Prop := ∀ b ∈ m.bases, b ∈ m.refs
+
+/-- what holds for a model `m` that is inserted when the dict is `pre`:
+its bases are already there, and every other dependency is there or `m` is flagged for
+forward-reference resolution -/
+def OkAt (B : Prop) (pre : List Model) (u : List Path) (m : Model) : Prop :=
+  (B → ∀ b ∈ m.bases, hasKey pre b = true) ∧
+  (∀ r ∈ m.refs, r ≠ m.path → hasKey pre r = true ∨ m.path ∈ u)
+
+def Good (B : Prop) (s : List Model) (u : List Path) : Prop :=
+  ∀ l1 m l2, s = l1 ++ m :: l2 → OkAt B l1 u m
+
+/-- hypotheses needed for the base clause -/
+structure BaseHyp (ms : List Model) : Prop where
+  wf : ∀ m ∈ ms, WF m
+  noSelf : ∀ m ∈ ms, m.path ∉ m.bases
+
+theorem BaseHyp.sub {ms ms' : List Model} (h : BaseHyp ms) (hs : ∀ m ∈ ms', m ∈ ms) : BaseHyp ms' :=
+  ⟨fun m hm => h.wf m (hs m hm), fun m hm => h.noSelf m (hs m hm)⟩
+
+variable {B : Prop}
+
+theorem OkAt.mono {pre : List Model} {u u' : List Path} {m : Model} (h : OkAt B pre u m)
+    (hu : ∀ p ∈ u, p ∈ u') : OkAt B pre u' m :=
+  ⟨h.1, fun r hr hne => (h.2 r hr hne).imp id (hu _)⟩
+
+theorem Good.mono {s : List Model} {u u' : List Path} (h : Good B s u) (hu : ∀ p ∈ u, p ∈ u') :
+    Good B s u' := fun l1 m l2 hs => (h l1 m l2 hs).mono hu
+
+theorem good_nil (u : List Path) : Good B [] u := by
+  intro l1 m l2 h
+  cases l1 <;> cases h
+
+theorem good_snoc {s : List Model} {u : List Path} {m : Model} (hg : Good B s u) (hm : OkAt B s u m) :
+    Good B (s ++ [m]) u := by
+  intro l1 x l2 h
+  rcases List.eq_nil_or_concat l2 with rfl | ⟨l2', y, rfl⟩
+  · have h' : s ++ [m] = l1 ++ [x] := h
+    obtain ⟨rfl, hx⟩ := List.append_inj' h' rfl
+    cases hx
+    exact hm
+  · have h' : s ++ [m] = (l1 ++ x :: l2') ++ [y] := by simpa using h
+    obtain ⟨rfl, _⟩ := List.append_inj' h' rfl
+    exact hg l1 x l2' rfl
+
+theorem pending_nil_iff {s : List Model} {m : Model} :
+    (pending s m).isEmpty = true ↔ ∀ r ∈ m.refs, r ≠ m.path → hasKey s r = true := by
+  simp only [pending, List.isEmpty_iff, List.filter_eq_nil_iff]
+  constructor
+  · intro h r hr hne
+    have := h r hr
+    simp only [Bool.and_eq_true, bne_iff_ne, ne_eq, Bool.not_eq_true', not_and, Bool.not_eq_false] at this
+    exact this hne
+  · intro h r hr
+    simp only [Bool.and_eq_true, bne_iff_ne, ne_eq, Bool.not_eq_true', not_and, Bool.not_eq_false]
+    exact h r hr
+
+theorem okAt_of_pending_nil {s : List Model} {u : List Path} {m : Model}
+    (hwf : B → WF m ∧ m.path ∉ m.bases)
+    (hp : (pending s m).isEmpty = true) : OkAt B s u m := by
+  have h := pending_nil_iff.mp hp
+  refine ⟨fun hB b hb => h b ((hwf hB).1 b hb) ?_, fun r hr hne => Or.inl (h r hr hne)⟩
+  rintro rfl
+  exact (hwf hB).2 hb
+
+theorem nodup_fresh {s ms : List Model} {m : Model}
+    (hnd : ((s ++ m :: ms).map (·.path)).Nodup) : hasKey s m.path = false := by
+  rw [hasKey_false_iff]
+  intro hmem
+  simp only [List.map_append, List.map_cons] at hnd
+  exact (List.nodup_append.mp hnd).2.2 _ hmem _ (List.mem_cons_self ..) rfl
+
+theorem nodup_shift {s ms : List Model} {m : Model}
+    (hnd : ((s ++ m :: ms).map (·.path)).Nodup) : (((s ++ [m]) ++ ms).map (·.path)).Nodup := by
+  simpa using hnd
+
+theorem nodup_drop {s ms : List Model} {m : Model}
+    (hnd : ((s ++ m :: ms).map (·.path)).Nodup) : ((s ++ ms).map (·.path)).Nodup := by
+  have hsub : (s ++ ms).Sublist (s ++ m :: ms) :=
+    List.Sublist.append_left (List.sublist_cons_self m ms) s
+  exact (hsub.map (·.path)).nodup hnd
+
+/-- the classification pass: keeps the invariant, loses nothing, only appends flags -/
+theorem classify_spec : ∀ (ms s : List Model) (u : List Path),
+    ((s ++ ms).map (·.path)).Nodup → (B → BaseHyp ms) → Good B s u →
+    Good B (classify ms s u).sorted (classify ms s u).upd ∧
+    ((classify ms s u).sorted ++ (classify ms s u).unres).Perm (s ++ ms) ∧
+    (classify ms s u).unres.Sublist ms := by
+  intro ms
+  induction ms with
+  | nil => intro s u _ _ hg; simpa [classify] using hg
+  | cons m ms ih =>
+    intro s u hnd hbh hg
+    have hbh' : B → BaseHyp ms := fun hB => (hbh hB).sub (fun x hx => List.mem_cons_of_mem _ hx)
+    simp only [classify, classifyStep_eq]
+    by_cases hp : (pending s m).isEmpty = true
+    · simp only [hp, if_true]
+      rw [dictSet_fresh (nodup_fresh hnd)]
+      have hg' : Good B (s ++ [m]) (if m.refs.contains m.path then u ++ [m.path] else u) := by
+        apply good_snoc
+        · apply hg.mono; intro p hp'; split <;> simp [hp']
+        · exact okAt_of_pending_nil
+            (fun hB => ⟨(hbh hB).wf m (List.mem_cons_self ..), (hbh hB).noSelf m (List.mem_cons_self ..)⟩) hp
+      obtain ⟨h1, h2, h3⟩ := ih (s ++ [m]) _ (nodup_shift hnd) hbh' hg'
+      refine ⟨h1, ?_, h3.cons _⟩
+      simpa using h2
+    · simp only [hp]
+      obtain ⟨h1, h2, h3⟩ := ih s u (nodup_drop hnd) hbh' hg
+      refine ⟨h1, ?_, h3.cons_cons _⟩
+      exact (List.perm_middle).trans ((List.Perm.cons m h2).trans List.perm_middle.symm)
+
+theorem bubble_spec : ∀ (f : Nat) (l fx : List Model), bubble f l = some fx →
+    bubblePass fx = fx ∧ fx.Perm l := by
+  intro f
+  induction f with
+  | zero => intro l fx h; simp [bubble] at h
+  | succ f ih =>
+    intro l fx h
+    simp only [bubble] at h
+    split at h
+    · rename_i heq
+      cases h
+      exact ⟨heq, List.Perm.refl _⟩
+    · obtain ⟨h1, h2⟩ := ih _ _ h
+      exact ⟨h1, h2.trans (bubblePass_perm l)⟩
+
+/-- bases that belong to the batch are already in the dict or stand earlier in the rest of the batch -/
+def BasesBefore (names : List Path) (todo s : List Model) : Prop :=
+  ∀ l1 m l2, todo = l1 ++ m :: l2 → ∀ b ∈ m.bases, b ∈ names →
+    hasKey s b = true ∨ b ∈ l1.map (·.path)
+
+theorem circular_spec (names : List Path) : ∀ (todo s : List Model) (u : List Path) (s' : List Model)
+    (u' : List Path), ((s ++ todo).map (·.path)).Nodup → (B → BaseHyp todo) → Good B s u →
+    (B → BasesBefore names todo s) → circular names todo s u = .ok (s', u') →
+    Good B s' u' ∧ s' = s ++ todo := by
+  intro todo
+  induction todo with
+  | nil =>
+    intro s u s' u' _ _ hg _ h
+    simp only [circular, Except.ok.injEq, Prod.mk.injEq] at h
+    obtain ⟨rfl, rfl⟩ := h
+    exact ⟨hg, by simp⟩
+  | cons m ms ih =>
+    intro s u s' u' hnd hbh hg hbb h
+    have hbh' : B → BaseHyp ms := fun hB => (hbh hB).sub (fun x hx => List.mem_cons_of_mem _ hx)
+    have hm : B → WF m ∧ m.path ∉ m.bases :=
+      fun hB => ⟨(hbh hB).wf m (List.mem_cons_self ..), (hbh hB).noSelf m (List.mem_cons_self ..)⟩
+    have hbb' : B → BasesBefore names ms (s ++ [m]) := by
+      intro hB l1 x l2 hx b hb hn
+      rcases hbb hB (m :: l1) x l2 (by rw [hx]; rfl) b hb hn with h | h
+      · left; rw [hasKey_append, h]; rfl
+      · rcases List.mem_cons.mp h with rfl | h
+        · left; rw [hasKey_append]; simp [hasKey]
+        · right; exact h
+    simp only [circular] at h
+    rw [dictSet_fresh (nodup_fresh hnd)] at h
+    by_cases hp : (pending s m).isEmpty = true
+    · simp only [hp, if_true] at h
+      have hg' : Good B (s ++ [m]) (if m.bases.any (fun b => u.contains b) then u ++ [m.path] else u) := by
+        apply good_snoc
+        · apply hg.mono; intro p hp'; split <;> simp [hp']
+        · exact okAt_of_pending_nil hm hp
+      obtain ⟨h1, h2⟩ := ih _ _ _ _ (nodup_shift hnd) hbh' hg' hbb' h
+      exact ⟨h1, by rw [h2]; simp⟩
+    · simp only [hp] at h
+      by_cases hall : (pending s m).all (fun r => names.contains r) = true
+      · simp only [hall, if_true] at h
+        have hg' : Good B (s ++ [m]) (u ++ [m.path]) := by
+          apply good_snoc
+          · apply hg.mono; intro p hp'; simp [hp']
+          · constructor
+            · intro hB b hb
+              have hne : b ≠ m.path := by rintro rfl; exact (hm hB).2 hb
+              cases hk : hasKey s b with
+              | true => rfl
+              | false =>
+                have hpend : b ∈ pending s m := by
+                  simp only [pending, List.mem_filter]
+                  exact ⟨(hm hB).1 b hb, by simp [hne, hk]⟩
+                have hn : b ∈ names := by
+                  have := (List.all_eq_true.mp hall) b hpend
+                  simpa using this
+                rcases hbb hB [] m ms rfl b hb hn with h | h
+                · rw [hk] at h; cases h
+                · simp at h
+            · intro r _ _
+              right; simp
+        obtain ⟨h1, h2⟩ := ih _ _ _ _ (nodup_shift hnd) hbh' hg' hbb' h
+        exact ⟨h1, by rw [h2]; simp⟩
+      · rw [if_neg hall] at h
+        cases h
+
+theorem finish_spec (c : Cls) (out : Out) (hnd : ((c.sorted ++ c.unres).map (·.path)).Nodup)
+    (hbh : B → BaseHyp c.unres) (hg : Good B c.sorted c.upd)
+    (h : finish c = .ok out) :
+    Good B out.sorted out.upd ∧ out.sorted.Perm (c.sorted ++ c.unres) := by
+  unfold finish at h
+  split at h
+  · cases h
+  · rename_i fx hb
+    obtain ⟨hfix, hperm⟩ := bubble_spec _ _ _ hb
+    split at h
+    · cases h
+    · rename_i s u hc
+      cases h
+      have hnd' : ((c.sorted ++ fx).map (·.path)).Nodup :=
+        (((List.Perm.append_left c.sorted hperm).map (·.path)).nodup_iff).mpr hnd
+      have hndfx : (fx.map (·.path)).Nodup := by
+        rw [List.map_append] at hnd'
+        exact (List.nodup_append.mp hnd').2.1
+      have hbh' : B → BaseHyp fx := fun hB => (hbh hB).sub (fun m hm => hperm.mem_iff.mp hm)
+      have hbb : B → BasesBefore (fx.map (·.path)) fx c.sorted := by
+        intro hB l1 m l2 hl b hb hn
+        right
+        exact fixpoint_sound fx hndfx (hbh' hB).noSelf hfix l1 m l2 hl b hb hn
+      obtain ⟨h1, h2⟩ := circular_spec _ fx c.sorted c.upd s u hnd' hbh' hg hbb hc
+      refine ⟨h1, ?_⟩
+      show s.Perm _
+      rw [h2]
+      exact List.Perm.append_left c.sorted hperm
+
+/-- `sort_data_models` keeps the invariant and returns a permutation -/
+theorem sortGo_spec : ∀ (rc : Nat) (ms s : List Model) (u : List Path) (out : Out),
+    ((s ++ ms).map (·.path)).Nodup → (B → BaseHyp ms) → Good B s u →
+    sortGo rc ms s u = .ok out →
+    Good B out.sorted out.upd ∧ out.sorted.Perm (s ++ ms) := by
+  intro rc
+  induction rc with
+  | zero =>
+    intro ms s u out hnd hbh hg h
+    obtain ⟨h1, h2, h3⟩ := classify_spec ms s u hnd hbh hg
+    simp only [sortGo] at h
+    split at h
+    · rename_i he
+      cases h
+      have : (classify ms s u).unres = [] := by simpa using he
+      rw [this] at h2
+      exact ⟨h1, by simpa using h2⟩
+    · obtain ⟨g1, g2⟩ := finish_spec _ out (((h2.map (·.path)).nodup_iff).mpr hnd)
+        (fun hB => (hbh hB).sub (fun m hm => h3.subset hm)) h1 h
+      exact ⟨g1, g2.trans h2⟩
+  | succ rc ih =>
+    intro ms s u out hnd hbh hg h
+    obtain ⟨h1, h2, h3⟩ := classify_spec ms s u hnd hbh hg
+    simp only [sortGo] at h
+    split at h
+    · rename_i he
+      cases h
+      have : (classify ms s u).unres = [] := by simpa using he
+      rw [this] at h2
+      exact ⟨h1, by simpa using h2⟩
+    · split at h
+      · obtain ⟨g1, g2⟩ := ih _ _ _ out (((h2.map (·.path)).nodup_iff).mpr hnd)
+          (fun hB => (hbh hB).sub (fun m hm => h3.subset hm)) h1 h
+        exact ⟨g1, g2.trans h2⟩
+      · obtain ⟨g1, g2⟩ := finish_spec _ out (((h2.map (·.path)).nodup_iff).mpr hnd)
+          (fun hB => (hbh hB).sub (fun m hm => h3.subset hm)) h1 h
+        exact ⟨g1, g2.trans h2⟩
+
+/-! ### the recursion: `recursion_count` never runs out before the work does -/
+
+theorem classify_unres_length : ∀ (ms s : List Model) (u : List Path),
+    (classify ms s u).unres.length ≤ ms.length ∧
+    ((classify ms s u).unres.length = ms.length → (classify ms s u).sorted = s) := by
+  intro ms
+  induction ms with
+  | nil => intro s u; simp [classify]
+  | cons m ms ih =>
+    intro s u
+    simp only [classify]
+    split
+    · rename_i s' u' _
+      have := (ih s' u').1
+      simp only [List.length_cons]
+      exact ⟨by omega, by omega⟩
+    · have := ih s u
+      simp only [List.length_cons]
+      exact ⟨by omega, fun h => this.2 (by omega)⟩
+
+/-- one more unit of `recursion_count` changes nothing once it is at least the number of models -/
+theorem sortGo_succ : ∀ (rc : Nat) (ms s : List Model) (u : List Path), ms.length ≤ rc →
+    sortGo (rc + 1) ms s u = sortGo rc ms s u := by
+  intro rc
+  induction rc with
+  | zero =>
+    intro ms s u h
+    have : ms = [] := List.eq_nil_of_length_eq_zero (by omega)
+    subst this
+    simp [sortGo, classify]
+  | succ rc ih =>
+    intro ms s u h
+    have hl := classify_unres_length ms s u
+    rw [sortGo]
+    conv => rhs; rw [sortGo]
+    split
+    · rfl
+    · split
+      · rename_i hne
+        apply ih
+        have : (classify ms s u).unres.length ≠ ms.length := by
+          intro heq
+          have := hl.2 heq
+          rw [this] at hne
+          simp at hne
+        omega
+      · rfl
+
+theorem sortGo_fuel (ms s : List Model) (u : List Path) : ∀ k,
+    sortGo (ms.length + k) ms s u = sortGo ms.length ms s u := by
+  intro k
+  induction k with
+  | zero => rfl
+  | succ k ih => rw [← Nat.add_assoc, sortGo_succ _ _ _ _ (by omega), ih]
+
+
+/-! ### acyclic inheritance is never reported as circular -/
+
+theorem Acyclic.sublist {l l' : List Model} (h : Acyclic l) (hs : l'.Sublist l) : Acyclic l' := by
+  obtain ⟨rank, hr⟩ := h
+  refine ⟨rank, fun m hm b hb hbn => hr m (hs.subset hm) b hb ?_⟩
+  exact (hs.map (·.path)).subset hbn
+
+theorem classify_unres_sublist : ∀ (ms s : List Model) (u : List Path),
+    (classify ms s u).unres.Sublist ms := by
+  intro ms
+  induction ms with
+  | nil => intro s u; simp [classify]
+  | cons m ms ih =>
+    intro s u
+    simp only [classify]
+    split
+    · exact (ih _ _).cons _
+    · exact (ih _ _).cons_cons _
+
+theorem circular_error (names : List Path) : ∀ (todo s : List Model) (u : List Path) (e : Err),
+    circular names todo s u = .error e → e = .unresolved := by
+  intro todo
+  induction todo with
+  | nil => intro s u e h; simp [circular] at h
+  | cons m ms ih =>
+    intro s u e h
+    simp only [circular] at h
+    split at h
+    · exact ih _ _ _ h
+    · split at h
+      · exact ih _ _ _ h
+      · cases h; rfl
+
+theorem finish_ne_circular (c : Cls) (hnd : (c.unres.map (·.path)).Nodup) (hac : Acyclic c.unres) :
+    finish c ≠ .error .circularBases := by
+  unfold finish
+  have := bubble_isSome c.unres hnd hac
+  split
+  · rename_i hb; rw [hb] at this; cases this
+  · split
+    · rename_i e he
+      have := circular_error _ _ _ _ _ he
+      subst this
+      intro h; cases h
+    · intro h; cases h
+
+theorem sortGo_ne_circular : ∀ (rc : Nat) (ms s : List Model) (u : List Path),
+    (ms.map (·.path)).Nodup → Acyclic ms → sortGo rc ms s u ≠ .error .circularBases := by
+  intro rc
+  induction rc with
+  | zero =>
+    intro ms s u hnd hac
+    have hsub := classify_unres_sublist ms s u
+    simp only [sortGo]
+    split
+    · intro h; cases h
+    · exact finish_ne_circular _ ((hsub.map (·.path)).nodup hnd) (hac.sublist hsub)
+  | succ rc ih =>
+    intro ms s u hnd hac
+    have hsub := classify_unres_sublist ms s u
+    simp only [sortGo]
+    split
+    · intro h; cases h
+    · split
+      · exact ih _ _ _ ((hsub.map (·.path)).nodup hnd) (hac.sublist hsub)
+      · exact finish_ne_circular _ ((hsub.map (·.path)).nodup hnd) (hac.sublist hsub)
+
+/-! ### the 2-cycle -/
+
+def cycA : Model := ⟨0, [1], [1]⟩
+def cycB : Model := ⟨1, [0], [0]⟩
+
+theorem pass_cycle_AB : bubblePass [cycA, cycB] = [cycB, cycA] := by decide
+theorem pass_cycle_BA : bubblePass [cycB, cycA] = [cycA, cycB] := by decide
+
+theorem bubble_cycle_none : ∀ f, bubble f [cycA, cycB] = none ∧ bubble f [cycB, cycA] = none := by
+  intro f
+  induction f with
+  | zero => exact ⟨rfl, rfl⟩
+  | succ f ih =>
+    constructor
+    · rw [bubble]; simp only [pass_cycle_AB]; rw [if_neg (by decide)]; exact ih.2
+    · rw [bubble]; simp only [pass_cycle_BA]; rw [if_neg (by decide)]; exact ih.1
+
 end Dcg.Proofs.Sort
